@@ -344,3 +344,9 @@ Lemma any_sentence_key_refuted :
 Proof.
   exists (mkNode FOther (Some [(0,0)]) false None None None). vm_compute. exists (0,0). auto.
 Qed.
+
+(* non-vacuity: a heap with a copy whose source and copy then diverge *)
+Example ex_copy_diverges :
+  let H := run 3 [Append 0 (sent [(1,0)]); Copy 0; Append 1 (sent [(0,0)]); Append 0 (sent [(3,0)])] in
+  map observe H = [((0,0), 0, [(1,0); (3,0)], [], false); ((2,0), 0, [(0,0); (1,0)], [], false)].
+Proof. vm_compute. reflexivity. Qed.
